@@ -57,7 +57,7 @@ def text_variant(lines, rng, sit):
     lines = list(lines)
     if kind in ("utf8", "both"):
         for i in range(0, len(lines), rng.randint(1, 7)):
-            lines[i] = lines[i] + "\tlb:Z:M\u00fcller\u2713"
+            lines[i] = lines[i] + "\tZ9:Z:M\u00fcller\u2713"
         sit["text_variant_utf8"] += 1
     if kind in ("crlf", "both"):
         lines = [l + "\r" for l in lines]
